@@ -351,6 +351,9 @@ func checkCases(r *core.Run, voc *Vocab, cases []*Case, stats *stats) {
 			if c.Name == "witness-2" {
 				cfgs = []config{{"all", "none", "css"}}
 			}
+			if c.Name == "witness-3" || c.Name == "witness-4" {
+				cfgs = []config{{"off", "chrome50", "css"}}
+			}
 		}
 		w.text = voc.Render(c.Items, w.style)
 		for _, cfg := range cfgs {
@@ -829,9 +832,19 @@ func classify(c *Case, o *outcome, envIx int) string {
 		if c.NotAmp {
 			return "nesting-list-expansion-in-not"
 		}
+		// `&` inside :not() under a parent with a combinator: the lowered `:not(parent)` is a complex :not(), which
+		// the browsers of such a target reject with the whole rule, while other lowered rules of the sheet work there
+		if e := c.Envs[envIx]; c.NotAmpC && !e.has("not-list") && !e.has("is") && !e.has("nesting") {
+			return "nesting-not-amp-complex-parent"
+		}
 		if c.Mixed {
 			return "nesting-list-expansion-specificity"
 		}
+	}
+	// `inset: max(..) 1px 2px 50%` lowered to top/right/bottom/left for a target without `inset`: where min()/max() is
+	// unknown the input's declaration is invalid as a whole, the output's other three longhands apply
+	if c.InsetMix && !subset([]string{"inset"}, tg.feats) && !c.Envs[envIx].has("math-fn") {
+		return "inset-lowered-partially"
 	}
 	// third class (any target): the minifier inlines `list { & { d } }` to `list { d }`
 	if c.Mixed && o.cfg.Minify != "off" && o.cfg.Minify != "whitespace" {
